@@ -96,7 +96,11 @@ func (g *VGen) uintVal(w int) uint64 {
 
 var timeSpecials = []string{"0", "1", "9223372036854775807", "9223372036854775806", "9223372036854775808",
 	"9223372036999999999", "9223372037000000000", "9223372037000000001", "-1", "-1000000000", "18446744073709551615",
-	"99999999999999999999", "1700000000123456789"}
+	"99999999999999999999", "1700000000123456789",
+	// the last second of the int64-nanosecond range and its neighbours (a saturation threshold placed on a whole second
+	// instead of MaxInt64 swallows them), small offsets from MaxInt64, MinInt64
+	"9223372036000000000", "9223372035999999999", "9223372036000000001", "9223372036500000000", "9223372036854775805",
+	"9223372036854775800", "9223372036854774807", "9223372035000000000", "-9223372036854775808", "999999999", "1000000000"}
 
 func (g *VGen) nanos() *big.Int {
 	if g.Rng.Chance(1, 4) {
@@ -172,6 +176,13 @@ func (g *VGen) fill(s *Schema, v reflect.Value) {
 		v.Set(reflect.ValueOf(TimeFromNanos(g.nanos())))
 	case KSlice:
 		n := g.length(s.Rules.Min, s.Rules.Max, 6)
+		if g.Big && s.Elem.tiny() && g.Rng.Chance(1, 6) {
+			// element counts at the capacity of the length prefix and next to it
+			n = hx.Pick(g.Rng, []int{254, 255, 256, 257})
+			if !(s.Rules.AutoSort && s.Rules.Lex) && g.Rng.Chance(1, 3) {
+				n = hx.Pick(g.Rng, []int{65535, 65536, 65537})
+			}
+		}
 		if n == 0 && g.Rng.Bool() {
 			return
 		}
@@ -187,6 +198,9 @@ func (g *VGen) fill(s *Schema, v reflect.Value) {
 		g.arrange(s, v)
 	case KMap:
 		n := g.length(s.Rules.Min, s.Rules.Max, 6)
+		if g.Big && s.Key.K == KUint && s.Key.W >= 2 && s.Elem.tiny() && g.Rng.Chance(1, 6) {
+			n = hx.Pick(g.Rng, []int{255, 256, 257}) // distinct keys are likely, the count is approximate
+		}
 		if n == 0 && g.Rng.Bool() {
 			return
 		}
@@ -298,4 +312,9 @@ func (g *VGen) arrange(s *Schema, v reflect.Value) {
 	for i, it := range items {
 		v.Index(i).Set(it.v)
 	}
+}
+
+// tiny: a one-byte scalar (collections of such elements can be made as long as a length prefix can count).
+func (s *Schema) tiny() bool {
+	return s.K == KBool || ((s.K == KUint || s.K == KInt) && s.W == 1)
 }
